@@ -1382,6 +1382,7 @@ static size_t ZSTDMT_createCompressionJob(ZSTDMT_CCtx* mtctx, size_t srcSize, ZS
     int const endFrame = (endOp == ZSTD_e_end);
 
     if (mtctx->nextJobID > mtctx->doneJobID + mtctx->jobIDMask) {
+        ZSTD_VERIF_PROBE(ZSTD_VERIF_PROBE_MT_JOB_TABLE_FULL);
         DEBUGLOG(5, "ZSTDMT_createCompressionJob: will not create new job : table is full");
         assert((mtctx->nextJobID & mtctx->jobIDMask) == (mtctx->doneJobID & mtctx->jobIDMask));
         return 0;
@@ -1445,6 +1446,7 @@ static size_t ZSTDMT_createCompressionJob(ZSTDMT_CCtx* mtctx, size_t srcSize, ZS
                 mtctx->nextJobID,
                 jobID);
     if (POOL_tryAdd(mtctx->factory, ZSTDMT_compressionJob, &mtctx->jobs[jobID])) {
+        ZSTD_VERIF_PROBE(ZSTD_VERIF_PROBE_MT_JOB_CREATED);
         mtctx->nextJobID++;
         mtctx->jobReady = 0;
     } else {
